@@ -712,18 +712,32 @@ pub struct NonceGuesser {
     raws: Vec<usize>,
     fired: u32,
     near: u32,
+    copied: u32,
 }
 
 impl NonceGuesser {
     pub fn new(plan: &Plan) -> Self {
         let raws: Vec<usize> = plan.endpoints.iter().enumerate().filter(|(_, e)| matches!(e.kind, EndpointKind::Raw)).map(|(i, _)| i).collect();
-        Self { server: 0, seen: Vec::new(), raws, fired: 0, near: 0 }
+        Self { server: 0, seen: Vec::new(), raws, fired: 0, near: 0, copied: 0 }
     }
 }
 
 impl crate::world::Adversary for NonceGuesser {
     fn on_wire(&mut self, w: &crate::world::WireRec, now_us: u64, plan: &Plan, out: &mut Vec<TimedOp>) {
         use uflow::verif::Serialize;
+        // a data frame of the genuine connection on its way to the server: now and then a copy of
+        // it (or an empty data frame bearing the next sequence number) follows from one of the
+        // attacker's addresses (coin keyed by the frame, at most 40 per run)
+        if plan.param("copy_genuine_data_frames", 0.0) != 0.0 && w.dst == Some(self.server) && !self.raws.is_empty() && w.bytes.first() == Some(&crate::world::FRAME_DATA) && w.bytes.len() >= 9 && matches!(plan.endpoints[w.src].kind, EndpointKind::Client { .. }) && self.copied < 40 {
+            let id = u32::from_be_bytes([w.bytes[1], w.bytes[2], w.bytes[3], w.bytes[4]]);
+            let mut coin = Rng::keyed(&[plan.fate_seed.unwrap_or(0), 0xc0b1, id as u64]);
+            if coin.chance(0.2) {
+                self.copied += 1;
+                let from = self.raws[coin.below(self.raws.len() as u64) as usize];
+                let bytes = if coin.chance(0.5) { (*w.bytes).clone() } else { enc_data(id.wrapping_add(1 + coin.below(3) as u32), false, &[]) };
+                out.push(TimedOp { t_us: now_us + coin.range(1, 200_000), rank: DELIVER_RANK_PUB, op: Op::Inject { to: self.server, from, bytes, twin: false } });
+            }
+        }
         if w.src != self.server || self.raws.is_empty() || now_us + 5_000_000 >= plan.end_us {
             return;
         }
@@ -1268,6 +1282,25 @@ pub fn world_b_spoof(property: &str, scenario: &str, seed: u64, run: u64, thorou
         }
     }
     {
+        // the genuine connection carries traffic in both directions in half of the runs that
+        // have one (generator of its own): its data frames, copied by the adversary and sent
+        // again from the spoofable addresses, carry sequence numbers the server expects - from
+        // the genuine client's address. A frame proves nothing about any other address
+        let mut r = Rng::keyed(&[seed, run, 0x18_0019]);
+        let has_genuine = plan.timeline.iter().any(|t| matches!(t.op, Op::Create { ep } if ep == genuine));
+        if has_genuine && r.chance(0.5) {
+            let mut t = r.range(1_500_000, 3_000_000);
+            let mut tag = 850_000u32;
+            while t < horizon {
+                plan.push(t, 0x4000_0000 + tag, Op::Send { ep: 0, to: Some(genuine), ch: 0, mode: MODE_RELIABLE, len: r.range(200, 6000) as u32, tag });
+                plan.push(t + r.below(100_000), 0x4000_0000 + tag + 1, Op::Send { ep: genuine, to: None, ch: 1, mode: MODE_UNRELIABLE, len: r.range(20, 200) as u32, tag: tag + 1 });
+                tag += 2;
+                t += r.range(300_000, 3_000_000);
+            }
+            plan.params.insert("copy_genuine_data_frames".into(), 1.0);
+        }
+    }
+    {
         // bursts of failing receive calls at the server (1 .. 1000 in a row), at any time and
         // right after datagrams from the spoofable addresses (drawn from a generator of its own)
         let mut r = Rng::keyed(&[seed, run, 0x50c_18a]);
@@ -1522,6 +1555,19 @@ pub fn world_b_disconnect(property: &str, scenario: &str, seed: u64, run: u64, t
             let t = r.range(1_000_000, t_call + 5_000_000);
             plan.push(t, 0x4000_0000 + tag, Op::Send { ep: other, to: other_to, ch: r.below(4) as u8, mode: r.below(4) as u8, len: r.range(12, 2000) as u32, tag });
             tag += 1;
+        }
+        {
+            // one run in six: shortly before the call the caller queues, in one go, 128-400
+            // Reliable packets of 0-3 bytes on one channel - data frames that are full by their
+            // number of datagrams (127) long before they are full by size (generator of its own)
+            let mut r2 = Rng::keyed(&[seed, run, 0xc09_7171, c as u64]);
+            if r2.chance(0.17) {
+                let t = t_call - 1 - r2.below(300_000);
+                for _ in 0..r2.range(128, 400) {
+                    plan.push(t, 0x4000_0000 + tag, Op::Send { ep: caller, to: caller_to, ch: 9, mode: MODE_RELIABLE, len: r2.below(4) as u32, tag });
+                    tag += 1;
+                }
+            }
         }
         if r.chance(0.7) {
             plan.push(t_call, 0x6000_0000, Op::Disconnect { ep: caller, to: caller_to });
